@@ -15,6 +15,8 @@ import numpy as np
 VERIF_DIR = os.path.dirname(os.path.dirname(os.path.abspath(__file__)))
 REPO = os.environ.get('VERIF_REPO', '/repo')
 NPROC = int(os.environ.get('VERIF_NPROC', '16'))
+# internal: where evidence/ and replays/ are written (mutation runs against scratch trees must not overwrite the real evidence)
+OUT_DIR = os.environ.get('VERIF_OUT', VERIF_DIR)
 
 
 class HarnessError(Exception):
@@ -378,7 +380,7 @@ def run_check(mod, tier, seed):
 
 
 def write_replay(prop, v):
-    d = os.path.join(VERIF_DIR, 'replays', prop)
+    d = os.path.join(OUT_DIR, 'replays', prop)
     os.makedirs(d, exist_ok=True)
     h = hashlib.blake2b(json.dumps(v['key']).encode(), digest_size=5).hexdigest()
     clause = ''.join(c if c.isalnum() or c in '-_' else '_' for c in v['clause'])
@@ -468,7 +470,7 @@ def finish(mod, tier, seed, tot, nshards, wall):
         'wall_s': round(wall, 2),
         'violations': nviol,
     }
-    d = os.path.join(VERIF_DIR, 'evidence')
+    d = os.path.join(OUT_DIR, 'evidence')
     os.makedirs(d, exist_ok=True)
     with open(os.path.join(d, '%s.json' % prop), 'w') as f:
         json.dump(ev, f, indent=1, sort_keys=True)
